@@ -273,7 +273,10 @@ Definition stream_write (s : sys) (incr : bool) (flat : list obs) (writes : list
 Inductive swop :=
 | SBase (o : xop)
 | StreamWrite (incr : bool) (flat : list obs) (writes : list (list sitem))
-              (layouts : list (N * list (N * N))) (orders : list (list N)) (r next : N).
+              (layouts : list (N * list (N * N))) (orders : list (list N)) (r next : N)
+  (* a compaction as the implementation ran it, also when the pick has reason 2011 (a
+     non-empty level between L0 and the base level, finding F11): used by the F11 witness *)
+| SCompactAny (c : compaction) (out : list entry).
 
 Definition swstep (s : sys) (o : swop) : xres :=
   match o with
@@ -283,6 +286,13 @@ Definition swstep (s : sys) (o : swop) : xres :=
       | SWOk s' tags => XOk s' tags
       | SWBad c => XBad c
       end
+  | SCompactAny c out =>
+      let ls := l_levels (s_db s) in
+      let pc := pick_check ls c in
+      if negb ((pc =? 0) || (pc =? 2011)) then XBad pc
+      else let '(code, ls') := apply_obs ls c out in
+           if code =? 0 then XOk (set_db s (mkLsm (l_mt (s_db s)) (l_imm (s_db s)) ls')) [if pc =? 2011 then 560 else 0]
+           else XBad code
   end.
 
 Fixpoint swexec (s : sys) (ops : list swop) (i : N) (tags : list N) : option (N * N) * sys * list N :=
